@@ -11,10 +11,18 @@
      ks_after   (after hwloc__reconnect(KEEPSTRUCTURE)) must equal  Restrict.keepStructure filters (rm_after)
      mem_after  (after propagate_total_memory)          must equal  ks_after with total_memory := Stage.totalsT
      final      (after hwloc_set_group_depth)           must equal  mem_after with group depth := Stage.setGroupDepth
+   after the load, from the public API (harness): `Y <gp> <symmetric_subtree> <depth> <arity>` per normal object (depth-first through
+   normal children) and `ENDY <id>`: must equal Stage.symmetricStage (tree of `final`), with depth = level index in connectLevels and
+   arity = number of normal children ("okY …" | "DIFFY …")
    `LOADED <id> <0|1>` closes a case: a rm_before block that is not followed by rm_after must be one whose root the model removes. -/
 import Hw.Topo.StageRemoveEmpty
 import Hw.Topo.StageMemory
 import Hw.Topo.StageGroup
+import Hw.Topo.StageSymmetric
+import Hw.Topo.StageMemoryDump
+import Hw.Topo.StageUnique
+import Hw.Topo.StageSetsMerge
+import Hw.Topo.WFLemmas0
 import Driver.Util
 import Std.Data.HashMap
 namespace Driver.Stage2Eng
@@ -49,7 +57,7 @@ def parseL2 (t : List String) : Option L2 :=
   | _ => none
 
 inductive DT where
-  | node (l : L2) (kids : List DT)
+  | node (l : L2) (kds : List DT)
 deriving Inhabited
 
 partial def parseNode : List L2 → Option (DT × List L2)
@@ -64,8 +72,8 @@ partial def parseNode : List L2 → Option (DT × List L2)
           | none => (acc.reverse, rest)
         else (acc.reverse, rest)
       | [] => (acc.reverse, [])
-    let (kids, rest') := loop [] rest
-    some (DT.node l kids, rest')
+    let (kds, rest') := loop [] rest
+    some (DT.node l kds, rest')
 
 def robjOf (l : L2) : Except String RObj :=
   let setBearing := l.kind = "N" || l.kind = "M"
@@ -81,13 +89,13 @@ def robjOf (l : L2) : Except String RObj :=
   | _ => .error s!"object gp={l.gp} has only some of its four sets (or an infinite one)"
 
 partial def toTree : DT → Except String Tree
-  | .node l kids => do
+  | .node l kds => do
     let o ← robjOf l
     let mut ns : List Tree := []
     let mut ms : List Tree := []
     let mut ios : List Tree := []
     let mut mis : List Tree := []
-    for k in kids do
+    for k in kds do
       match k with
       | .node kl _ =>
         let t ← toTree k
@@ -134,6 +142,7 @@ structure St2 where
   lines : List L2 := []                                          -- reversed
   prev : Option Block := none
   rmPending : Option Bool := none      -- a rm_before block is waiting for rm_after: `some rootRemoved`
+  ys : List (Nat × Nat × Int × Nat) := []                        -- reversed Y lines: gp, flag, depth, arity
 deriving Inhabited
 
 def parseFilters (s : String) : Option (List Nat) :=
@@ -203,7 +212,13 @@ def endBlock (s : St2) (name : String) : St2 × String :=
           let t := keepStructure p.filters p.tree
           let exp := rowsT p.tab (-1) "N" t
           if exp ≠ got then (next, s!"DIFF2 ks_after " ++ firstDiff exp got 0)
-          else (next, s!"ok2 ks_after objs={b.nobjs} merged={p.nobjs - b.nobjs}")
+          else
+            -- C01_sets_through_level_merging instantiated on this load: hypotheses on the rm_after tree, conclusion on the merged tree
+            let sq := setQT p.tree
+            let tg := tightT p.tree
+            let sw := setWT t
+            if sq && tg && !sw then (next, s!"DIFF2 ks_after the set clauses fail after level merging although SetQ and the single-child hypothesis hold before") else
+            (next, s!"ok2 ks_after objs={b.nobjs} merged={p.nobjs - b.nobjs} setq={if sq then 1 else 0} tight={if tg then 1 else 0} setw={if sw then 1 else 0}")
         else if name = "mem_after" then
           if p.name ≠ "ks_after" then (next, s!"DIFF2 {name} follows {p.name}") else
           let loc : RObj → Nat := fun o => ((p.tab.get? o.gp).map (·.loc)).getD 0
@@ -227,11 +242,60 @@ def endBlock (s : St2) (name : String) : St2 × String :=
           if exp ≠ got then (next, s!"DIFF2 final " ++ firstDiff exp got 0)
           else
             let glevels := ((connectLevels p.tree).filter isGroupLevel).length
-            (next, s!"ok2 final objs={b.nobjs} groups={gds.length} grouplevels={glevels}")
+            -- the dump-form theorems (C01_pipeline_dump_clauses / C01_pipeline_unique) instantiated on this load: hypotheses and conclusions
+            let loc : RObj → Nat := fun o => ((p.tab.get? o.gp).map (·.loc)).getD 0
+            let tab := memTab loc p.tree
+            let d := render p.tree ⟨b.flags, b.filters, none, none⟩ (exOfTab tab loc (fun _ => {}))
+            let a := mkAux d
+            let hyp := typedT p.tree && decide (sumLocalT loc p.tree < W64) && decide (((objsT p.tree).map (·.gp)).Nodup)
+            let concl := d.objs.all (fun o => objClause "total-memory" d a o && objClause "children-counts" d a o) &&
+              topClause "gp-index-unique" d a && topClause "type-depth-inverse" d a && topClause "levels-cover-objects" d a
+            let osu := decide ((((objsT p.tree).filter (fun o => o.type == tPU)).map (·.osidx)).Nodup) &&
+              decide ((((objsT p.tree).filter (fun o => o.type == tNUMA)).map (·.osidx)).Nodup)
+            let osc := topClause "pu-osindex-unique" d a && topClause "numa-osindex-unique" d a
+            if (hyp && !concl) || (osu && !osc) then (next, s!"DIFF2 final a dump-form theorem instance fails (hyp={hyp} concl={concl} osu={osu} osc={osc})") else
+            (next, s!"ok2 final objs={b.nobjs} groups={gds.length} grouplevels={glevels} dumphyp={if hyp then 1 else 0} dumpclauses={if concl then 1 else 0} osunique={if osu then 1 else 0}")
         else (next, "bad-op")
+
+mutual
+partial def aritiesT : Tree → List (Nat × Nat)
+  | .node o ns _ _ _ => (o.gp, ns.length) :: aritiesL ns
+partial def aritiesL : List Tree → List (Nat × Nat)
+  | [] => []
+  | t :: ts => aritiesT t ++ aritiesL ts
+end
+
+/-- the public symmetric_subtree flags against the model of hwloc_propagate_symmetric_subtree on the `final` tree -/
+def endY (s : St2) : St2 × String :=
+  let ys := s.ys.reverse
+  let s' : St2 := { s with ys := [] }
+  match s.prev with
+  | none => (s', "okY absent")
+  | some b =>
+    if b.name ≠ "final" then (s', "okY absent") else
+    -- RESTRICT_TO_CPUBINDING / RESTRICT_TO_MEMBINDING (16, 32) change the tree after hwloc_discover
+    if b.flags &&& 48 != 0 then (s', "okY skipped") else
+    let levels := connectLevels b.tree
+    let dep := depthIn levels
+    let exp := symmetricStage b.tree
+    let ar := aritiesT b.tree
+    let expRows := (exp.zip ar).map (fun (p, a) => s!"{p.1} {if p.2 then 1 else 0} {depthOfGp levels p.1} {a.2}")
+    let gotRows := ys.map (fun (g, f, d, a) => s!"{g} {f} {d} {a}")
+    if exp.length ≠ ar.length then (s', "DIFFY internal: visited objects") else
+    if expRows ≠ gotRows then (s', "DIFFY " ++ firstDiff expRows gotRows 0)
+    else
+      let asym := (exp.filter (fun p => !p.2)).length
+      let multi := (ar.filter (fun a => a.2 ≥ 2)).length
+      let unif := if (symT dep b.tree) == (exp.all (·.2)) then 1 else 0
+      (s', s!"okY n={exp.length} asym={asym} multi={multi} rootsym={if symT dep b.tree then 1 else 0} allsame={unif}")
 
 def step (s : St2) (t : List String) : St2 × String :=
   match t with
+  | ["Y", gp, f, d, a] =>
+    match parseNat gp, parseNat f, parseInt d, parseNat a with
+    | some gp, some f, some d, some a => ({ s with ys := (gp, f, d, a) :: s.ys }, ".")
+    | _, _, _, _ => (s, "bad-op")
+  | ["ENDY", _] => endY s
   | ["STAGE2", name, flags, filters, ac, an] =>
     match parseNat flags, parseFilters filters with
     | some f, some fl =>
